@@ -1,10 +1,12 @@
 /-
   C20 (continued) — row order under `Radius` (exact metrics): the neighbourhood of a query is the *set* of stored rows
   within the radius, so storing the same observations in another order (any permutation of what `fit` /
-  `partial_fit` received) gives the same answers for every query — for every context-free learning policy under it.
+  `partial_fit` received) gives the same answers for every query — for every learning policy under it (context-free
+  or linear, without a binarizer).
 -/
 import MabModel.Props.C20g
 import MabModel.Props.C05c
+import MabModel.Props.C20j
 open Py
 set_option linter.unusedSectionVars false
 set_option linter.unusedVariables false
@@ -53,12 +55,10 @@ theorem radius_rows_filter (b : Bandit α) (r : Rat) (m : Metric) (pr : Option (
 /-- what the row-order theorems need of the learning policy under the neighbourhood policy -/
 structure CFGood (lp : LP α) : Prop where
   wf : lp.WF
-  notLinear : lp.kind.isLinear = false
   noBinz : lp.binz = none
 
 theorem CFGood.of_sameCfg {s s' : LP α} (h : CFGood s) (c : SameCfg s s') : CFGood s' :=
-  ⟨⟨by rw [← c.keys, ← c.arms]; exact h.wf.keys, by rw [← c.arms]; exact h.wf.nodup⟩,
-   by rw [← c.kind]; exact h.notLinear, by rw [← c.binz]; exact h.noBinz⟩
+  ⟨⟨by rw [← c.keys, ← c.arms]; exact h.wf.keys, by rw [← c.arms]; exact h.wf.nodup⟩, by rw [← c.binz]; exact h.noBinz⟩
 
 /-- two bandits that differ only in the order of the stored rows -/
 structure HistPerm (b b' : Bandit α) : Prop where
@@ -87,7 +87,7 @@ theorem radius_nhoodRow_perm (le : Expect → Expect → Bool) (b b' : Bandit α
       (b.hist.filter (fun h => decide (distExact m h.ctx q ≤ radiusBound m r))) := hp.perm.filter _
   have hfit : lp.fit ((b'.selectIdx q ds ks).1.filterMap fun j => b'.hist[j]?) (some q.length) =
       lp.fit ((b.selectIdx q ds ks).1.filterMap fun j => b.hist[j]?) (some q.length) := by
-    rw [e1, e2]; exact fit_perm lp _ _ _ hg.wf hg.notLinear hg.noBinz hperm
+    rw [e1, e2]; exact fit_perm_all lp _ _ _ hg.wf hg.noBinz hperm (nfFor_some lp _ _ _)
   have hlen : (b'.selectIdx q ds ks).1.length = (b.selectIdx q ds ks).1.length := by rw [l1, l2, hperm.length_eq]
   have htie : (b'.selectIdx q ds ks).2 = (b.selectIdx q ds ks).2 := by
     simp only [Bandit.selectIdx, hnp, hnp']
